@@ -108,7 +108,7 @@ func runProp(t *testing.T, id string, scenarios func() []Scenario, rule string) 
 	claimed := vk.Pick(run, 1, 2)
 	run.Set("preemption_bound_claimed", claimed)
 	scs := scenarios()
-	slot := vk.Pick(run, 5*time.Minute, 60*time.Minute) / time.Duration(len(scs))
+	slot := vk.Pick(run, 5*time.Minute, 30*time.Minute) / time.Duration(len(scs))
 	var total int64
 	per := map[string]any{}
 	for _, sc := range scs {
